@@ -598,6 +598,37 @@ pub fn run_expiry(ctx: &mut Ctx, mode: Mode) {
             },
         );
     }
+    {
+        // Roots with 120 to 218 legal moves (queen fans) and other extreme but legal material: every
+        // per-root-move list, counter or array in the search is at its limit here.
+        run_prop(
+            ctx,
+            if mode == Mode::C07 { "roots_with_very_many_legal_moves" } else { "info_lines_at_roots_with_very_many_legal_moves" },
+            || (prop_oneof![3 => placement_fan(), 1 => placement_crowd()], proptest::collection::vec(500u32..6_000, 2..=2)),
+            t.pick(40, 600),
+            move |(r, deep), st| {
+                let Some(p) = build_placement(r) else { return Ok(()) };
+                let n = p.legal_moves().len();
+                if n < 60 {
+                    return Ok(());
+                }
+                let Ok(case) = make_case(&p, &[]) else { return Ok(()) };
+                st.sample(|| case_json(&p, &[]));
+                st.label(if n > 128 { "root_with_more_than_128_legal_moves" } else { "root_with_60_to_128_legal_moves" });
+                let deep: Vec<u64> = deep.iter().map(|&d| d as u64).collect();
+                expiry_case(&case, 250, &deep, mode, st)
+            },
+            move |(r, deep)| {
+                let mut v = match build_placement(r) {
+                    Some(p) => case_json(&p, &[]),
+                    None => json!({"fen": null}),
+                };
+                v["kmax"] = json!(250);
+                v["deep"] = json!(deep);
+                v
+            },
+        );
+    }
     if mode == Mode::C07 {
         // Long searches: middlegame positions with a game history, searched for millions of clock
         // consultations (iteration 7-9, a repetition table grown to hundreds of thousands of entries
